@@ -25,7 +25,12 @@ digits (numbers are unbounded here: the checks use values below 2^31; a '-' befo
 -/
 namespace SgVerif.C41
 
-abbrev Chunk := Nat × Int          -- (aid, times_considered)
+/-- (aid, times_considered) as stored in a `Transition`: `Aid::storage_type` is `uint8_t` (max_threads = 32 <= 256,
+src/mc/api/Aid.hpp; the value 31 is `Aid::INVALID`), `times_considered_` is an `unsigned short`. -/
+abbrev Chunk := Nat × Nat
+def aidModulus : Nat := 256
+def tcModulus : Nat := 65536
+def invalidAid : Nat := 31
 
 def digitChar : Nat → Char
   | 0 => '0' | 1 => '1' | 2 => '2' | 3 => '3' | 4 => '4' | 5 => '5' | 6 => '6' | 7 => '7' | 8 => '8' | _ => '9'
@@ -42,13 +47,17 @@ def digitsLE : Nat → Nat → List Nat
 def showNat (n : Nat) : List Char := ((digitsLE n n).reverse).map digitChar
 
 def showChunk (c : Chunk) : List Char :=
-  showNat c.1 ++ (if c.2 > 0 then '/' :: showNat c.2.toNat else [])
+  showNat c.1 ++ (if c.2 > 0 then '/' :: showNat c.2 else [])
 
 /-- `RecordTrace::to_string`. -/
 def toStr : List Chunk → List Char
   | [] => []
   | [c] => showChunk c
   | c :: rest => showChunk c ++ ';' :: toStr rest
+
+/-- `to_string` with its error branch: `aid_.value()` throws `InvalidAid` on `Aid::INVALID`. -/
+def toStrChecked (p : List Chunk) : Option (List Char) :=
+  if p.any (fun c => c.1 == invalidAid) then none else some (toStr p)
 
 /-- maximal run of decimal digits -/
 def readDigits : List Char → Nat → Nat × List Char
@@ -78,11 +87,12 @@ def scanChunk (s : List Char) : Option Chunk :=
   match readNumber s with
   | none => none
   | some (neg, v, rest) =>
-    let aid : Nat := if neg then (4294967296 - v % 4294967296) % 4294967296 else v
+    -- `unsigned aid` then `Aid(unsigned)`: static_cast<uint8_t>; `int times_considered` then `unsigned short`
+    let aid : Nat := (if neg then (4294967296 - v % 4294967296) % 4294967296 else v) % aidModulus
     match rest with
     | '/' :: r =>
       match readNumber r with
-      | some (neg2, w, _) => some (aid, if neg2 then -(w : Int) else (w : Int))
+      | some (neg2, w, _) => some (aid, ((if neg2 then -(w : Int) else (w : Int)) % (tcModulus : Int)).toNat)
       | none => some (aid, 0)
     | _ => some (aid, 0)
 
